@@ -56,6 +56,26 @@ for ss, ps, start in grid:
       add("distributed_shampoo.update", [ss, ps, start, t], "warm-up update differs from the graft-only optimizer's")
     st = new
 
+# scheduled preconditioner interval (grows as the learning rate decays): the interval in force at step t is
+# preconditioning_compute_steps_schedule(lr, start, end, t)
+for ps0, end in ((1, 40), (2, 40)):
+  cases += 1
+  lr = lambda t: 0.1 * (t + 1.0) ** -0.5
+  opt = ds.distributed_shampoo(lr, block_size=4, preconditioning_compute_steps=ps0, decay_preconditioning_compute_steps=True,
+                               end_preconditioning_compute_steps=end, start_preconditioning_step=1)
+  p = {"w": jnp.zeros(shape, jnp.float32)}
+  st = opt.init(p)
+  for t in range(6):
+    g = {"w": jnp.asarray(rng.randn(*shape).astype(np.float32))}
+    u, new = opt.update(g, st, p)
+    k_t = int(ds.preconditioning_compute_steps_schedule(lr, ps0, end, jnp.asarray(t)))
+    old_s, new_s = st.stats["w"], new.stats["w"]
+    if k_t < 1:
+      add("preconditioning_compute_steps_schedule", [ps0, end, t], f"scheduled interval {k_t} < 1")
+    elif t % k_t != 0 and not (same(old_s.preconditioners, new_s.preconditioners) and same(old_s.training_metrics, new_s.training_metrics)):
+      add("distributed_shampoo.update", ["scheduled", ps0, end, t, k_t], "preconditioners or diagnostics changed on a step that is not a multiple of the scheduled interval")
+    st = new
+
 for fs, fp in ([(1, 1), (2, 3), (3, 2)] if tier == "quick" else list(itertools.product((1, 2, 3), (1, 2, 3)))):
   cases += 1
   opts = tsh.Options(block_size=4, update_statistics_freq=fs, update_preconditioners_freq=fp)
